@@ -3,7 +3,7 @@
 P=$1; shift
 if ! git -C /repo diff --quiet; then echo "/repo dirty"; exit 9; fi
 if ! git -C /repo apply "$P" 2>/dev/null; then
-  if ! git -C /repo apply --3way "$P" >/dev/null 2>&1; then echo "PATCH DOES NOT APPLY: $P"; git -C /repo checkout -- . ; git -C /repo reset -q; exit 8; fi
+  if ! git -C /repo apply --3way "$P" >/dev/null 2>&1; then echo "PATCH DOES NOT APPLY: $P"; git -C /repo reset -q --hard HEAD; exit 8; fi
   git -C /repo reset -q
 fi
 for C in "$@"; do
